@@ -73,6 +73,7 @@ def main(argv):
     from vmon.ctx import Ctx, Skip, dump_result
     ctx = Ctx(prop, tier, seed, shard, nshards, repo)
     t0 = time.time()
+    cpu0 = time.process_time()
     try:
         import_repo(repo)
     except Exception as e:
@@ -98,7 +99,9 @@ def main(argv):
         cases = interleave(expand_plan(mod.plan(tier)))[shard::nshards]
     skipped_budget = 0
     for kind, idx in cases:
-        if time.time() - t0 > budget and only is None:
+        # the budget is CPU time of this worker (a loaded machine must not thin out the workload), with a wall-clock cap below the
+        # runner's watchdog (3 * budget + 120 s) so that the run always ends with a result
+        if only is None and (time.process_time() - cpu0 > budget or time.time() - t0 > 2.5 * budget):
             skipped_budget += 1
             continue
         rng = case_rng(seed, prop, kind, idx)
